@@ -891,4 +891,104 @@ def shown (d : List (List String × String)) : List String := d.map (·.2)
 
 end Disp
 
+/-! ## Round 8b: the call sequence of every section's LoadJSON / ApplyEnvVars / apply function
+
+`harness/common/c15_seq.go` reads, for every section, the top-level statements of `LoadJSON`, `ApplyEnvVars`
+and of the apply function (its helper load functions inlined) as events; the model *interprets* the events
+under an oracle saying which fallible step fails, which early-return guard fires and what `Validate()` says. -/
+namespace Seq
+
+inductive Ev
+  | unmarshal    -- `err := json.Unmarshal(raw, jcfg)` followed by `if err != nil { return err }`
+  | toJSON       -- `jcfg[, err] := cfg.toJSONConfig()` (with its error check when it has an error result)
+  | process      -- `err := envconfig.Process(key, jcfg)` followed by its error check
+  | dflt         -- `cfg.Default()` / `cfg.setDefaults()`
+  | apply        -- `return cfg.applyJSONConfig(jcfg)` (replaced by the apply sequence)
+  | assign       -- a statement without `return` (assignment, SetIfNotDefault, conditional copy)
+  | try          -- a fallible step: error-producing call + `if err != nil { return err }`, or `if bad { return error }`
+  | earlyNil     -- a conditional `return nil` before the end
+  | skip (n : Nat) -- a conditional `return nil` inside an inlined helper: leaves the helper, i.e. jumps over its next n events
+  | droppedErr   -- `err` assigned and not checked by the next statement
+  | retValidate  -- `return cfg.Validate()`
+  | retNil       -- `return nil`
+  | retTry       -- `return <fallible call>` other than Validate
+  | unknown
+  deriving DecidableEq, Repr
+
+structure Oracle where
+  fails : Nat → Bool   -- the fallible step at position i fails
+  fires : Nat → Bool   -- the guard of the early return at position i holds
+  valid : Bool         -- what Validate() says about the object reached
+
+structure St where
+  dflt : Bool          -- Default() ran in this call
+  assigned : Nat       -- assignments executed since
+  dropped : Bool       -- an error was produced and ignored
+  deriving DecidableEq, Repr
+
+inductive Res
+  | err
+  | ok (validated : Bool) (s : St)
+  | stuck
+  deriving DecidableEq, Repr
+
+def interp (o : Oracle) : List Ev → Nat → Nat → St → Res
+  | [], _, _, _ => .stuck
+  | _ :: es, i, k + 1, s => interp o es (i + 1) k s
+  | e :: es, i, 0, s =>
+    match e with
+    | .unmarshal | .toJSON | .process | .try => if o.fails i then .err else interp o es (i + 1) 0 s
+    | .dflt => interp o es (i + 1) 0 { s with dflt := true, assigned := 0 }
+    | .assign => interp o es (i + 1) 0 { s with assigned := s.assigned + 1 }
+    | .earlyNil => if o.fires i then .ok false s else interp o es (i + 1) 0 s
+    | .skip n => if o.fires i then interp o es (i + 1) n s else interp o es (i + 1) 0 s
+    | .droppedErr => interp o es (i + 1) 0 { s with dropped := s.dropped || o.fails i }
+    | .retValidate => if o.valid then .ok true s else .err
+    | .retNil => .ok false s
+    | .retTry => if o.fails i then .err else .ok false s
+    | .apply | .unknown => .stuck
+
+/-- run a whole sequence from position 0 -/
+def run (o : Oracle) (l : List Ev) (s : St) : Res := interp o l 0 0 s
+
+def isBody : Ev → Bool
+  | .assign | .try => true
+  | _ => false
+
+def countAssign (l : List Ev) : Nat := (l.filter (· == .assign)).length
+
+/-- the apply function: assignments and fallible steps only, then `return cfg.Validate()` -/
+def applyOk (a : List Ev) : Bool := a.getLast? == some .retValidate && a.dropLast.all isBody && 0 < countAssign a
+
+/-- helper-scoped early returns allowed: each `skip n` at position k of the part before `return cfg.Validate()` stays inside it -/
+def skipsInside : List Ev → Bool
+  | [] => true
+  | .skip n :: es => n ≤ es.length && skipsInside es
+  | e :: es => isBody e && skipsInside es
+
+def applyOkSkips (a : List Ev) : Bool := a.getLast? == some .retValidate && skipsInside a.dropLast && 0 < countAssign a
+
+/-- sections whose apply function may leave a helper early (restapi: `tlsOptions` returns when neither a certificate nor a key
+file is named — nothing to load; the `tlsPath` kind theorems speak about that row) -/
+def skipAllowed : List String := ["restapi"]
+
+def expand (outer a : List Ev) : List Ev := outer.flatMap fun e => if e == .apply then a else [e]
+
+structure SecSeq where
+  name : String
+  load : List Ev
+  env : List Ev
+  apply : List Ev
+  deriving Repr
+
+/-- LoadJSON = parse, Default, apply; ApplyEnvVars = current values, environment, apply (no Default). The identity has no
+defaults to start from (its apply assigns both fields or refuses). -/
+def SecSeq.ok (s : SecSeq) : Bool :=
+  (applyOk s.apply || (skipAllowed.contains s.name && applyOkSkips s.apply)) && s.env == [.toJSON, .process, .apply] &&
+    (s.load == [.unmarshal, .dflt, .apply] || (s.name == "identity" && s.load == [.unmarshal, .apply]))
+
+def fresh : St := { dflt := false, assigned := 0, dropped := false }
+
+end Seq
+
 end CV.C15
